@@ -11,7 +11,7 @@ Local Open Scope N_scope.
 Local Opaque u16_be.
 
 (* ---------------------------------------------------------------- the drain of one freshly retained packet, answered by the broker *)
-Lemma drain_single_retained : forall f w2 e bs h rl body reply,
+Lemma drain_single_retained_rt : forall f w2 e bs h rl body reply,
   Hc w2 -> PQ w2 ->
   ob_ctl (s_ob (w_sess w2)) = [] -> ob_rel (s_ob (w_sess w2)) = [] -> ob_ret (s_ob (w_sess w2)) = [e] -> re_st e = SWrite 0 ->
   sliceN (re_off e) (re_len e) (ob_buf (s_ob (w_sess w2))) = bs ->
@@ -23,7 +23,9 @@ Lemma drain_single_retained : forall f w2 e bs h rl body reply,
     Hc w3 /\ s_reader (w_sess w3) = s_reader (w_sess w2) /\ w_now w3 = w_now w2 /\
     rt_next_ping (s_rt (w_sess w3)) = None /\ rt_ping_timeout (s_rt (w_sess w3)) = None /\
     ob_ctl (s_ob (w_sess w3)) = [] /\ ob_rel (s_ob (w_sess w3)) = [] /\ ob_ret (s_ob (w_sess w3)) = [sent_entry e] /\
-    rt_quota (s_rt (w_sess w3)) = rt_quota (s_rt (w_sess w2)).
+    rt_quota (s_rt (w_sess w3)) = rt_quota (s_rt (w_sess w2)) /\
+    w_broker w3 = 1 /\ w_txbuf w3 = [] /\ w_last_arrival w3 = w_now w2 /\
+    s_rt (w_sess w3) = note_outbound_activity (s_rt (w_sess w2)) (w_now w2) /\ ob_buf (s_ob (w_sess w3)) = ob_buf (s_ob (w_sess w2)).
 Proof.
   intros f w2 e bs h rl body reply Hc2 Q2 Ec2 El2 Er2 Est Ebs Elay Hrl Hrep Hne Hka Hpt Hbr Htx Hiq Hla.
   pose proof Hc2 as [Hs [Hl [I2 [Hmps _]]]].
@@ -52,7 +54,29 @@ Proof.
          by (rewrite Ert3; unfold note_outbound_activity, keepalive_send_interval; rewrite Hka;
              cbn [N.eqb rt_with_timers rt_next_ping rt_ping_timeout rt_quota]; repeat split; assumption).
   all: exists w3; split; [reflexivity|]; split; [exact Hw3|]; split; [exact Vi|]; split; [exact Hc3|]; split; [exact R3|]; split; [exact N3|];
-       split; [exact (proj1 Hrt3)|]; split; [exact (proj1 (proj2 Hrt3))|]; split; [exact Ec3|]; split; [exact El3|]; split; [exact Er3|exact (proj2 (proj2 Hrt3))].
+       split; [exact (proj1 Hrt3)|]; split; [exact (proj1 (proj2 Hrt3))|]; split; [exact Ec3|]; split; [exact El3|]; split; [exact Er3|]; split; [exact (proj2 (proj2 Hrt3))|];
+       split; [exact Vb|]; split; [exact Vt|]; split; [exact Vl|]; split; [exact Ert3|exact Eb3].
+Qed.
+
+
+Lemma drain_single_retained : forall f w2 e bs h rl body reply,
+  Hc w2 -> PQ w2 ->
+  ob_ctl (s_ob (w_sess w2)) = [] -> ob_rel (s_ob (w_sess w2)) = [] -> ob_ret (s_ob (w_sess w2)) = [e] -> re_st e = SWrite 0 ->
+  sliceN (re_off e) (re_len e) (ob_buf (s_ob (w_sess w2))) = bs ->
+  bs = h :: rl ++ body -> varint_write (lenN body) = Some rl -> broker_reply 1 bs = reply -> reply <> [] ->
+  rt_ka_ms (s_rt (w_sess w2)) = 0 -> rt_ping_timeout (s_rt (w_sess w2)) = None ->
+  w_broker w2 = 1 -> w_txbuf w2 = [] -> w_inq w2 = [] -> w_last_arrival w2 <= w_now w2 ->
+  exists w3,
+    flush_outbound (S (S f)) w2 = (w3, ODone tt) /\ w_wire w3 = w_wire w2 ++ bs /\ w_inq w3 = [(w_now w2, reply)] /\
+    Hc w3 /\ s_reader (w_sess w3) = s_reader (w_sess w2) /\ w_now w3 = w_now w2 /\
+    rt_next_ping (s_rt (w_sess w3)) = None /\ rt_ping_timeout (s_rt (w_sess w3)) = None /\
+    ob_ctl (s_ob (w_sess w3)) = [] /\ ob_rel (s_ob (w_sess w3)) = [] /\ ob_ret (s_ob (w_sess w3)) = [sent_entry e] /\
+    rt_quota (s_rt (w_sess w3)) = rt_quota (s_rt (w_sess w2)).
+Proof.
+  intros f w2 e bs h rl body reply Hc2 Q2 Ec2 El2 Er2 Est Ebs Elay Hrl Hrep Hne Hka Hpt Hbr Htx Hiq Hla.
+  destruct (drain_single_retained_rt f w2 e bs h rl body reply Hc2 Q2 Ec2 El2 Er2 Est Ebs Elay Hrl Hrep Hne Hka Hpt Hbr Htx Hiq Hla)
+    as [w3 [A1 [A2 [A3 [A4 [A5 [A6 [A7 [A8 [A9 [A10 [A11 [A12 _]]]]]]]]]]]]].
+  exists w3. repeat (split; [assumption|]). assumption.
 Qed.
 
 (* ---------------------------------------------------------------- codec facts *)
